@@ -440,7 +440,18 @@ def _missing_checks_gate(b, flag_of, _spans):
         # every decrement happens where a flag that was false is raised
         seen_flags = set()
         for dbb in decs:
-            raised = [st[1][0] for st in b.stmts(dbb) if st[0] == "A" and not st[1][1] and st[1][0] in flags and st[2][0] == "use" and st[2][1][0] == "k" and int(st[2][1][3]) == 1]
+            # the flag is raised next to the decrement: in its block or in the straight-line blocks right after it (the overflow
+            # assertion of `n -= 1` splits the block; the two statements may stand in either order)
+            near, cur = [dbb], dbb
+            for _ in range(3):
+                nxt = [x for x in b.succ[cur] if x in b.live_blocks]
+                if b.term(cur)[0] in ("assert", "goto") and len(nxt) >= 1:
+                    cur = b.term(cur)[5] if b.term(cur)[0] == "assert" else b.term(cur)[1]
+                    near.append(cur)
+                else:
+                    break
+            raised = [st[1][0] for x in near for st in b.stmts(x) if st[0] == "A" and not st[1][1] and st[1][0] in flags and st[2][0] == "use" and st[2][1][0] == "k" and int(st[2][1][3]) == 1]
+            raised = sorted(set(raised))
             guard = None
             for pb in b.pred.get(dbb, []) if isinstance(b.pred, dict) else b.pred[dbb]:
                 pt = b.term(pb)
